@@ -130,7 +130,10 @@ CLAIMS = {
              "on the way to the constructor selects by truth value (R-FALSY on None-default data parameters); masks keep the "
              "element where the mask element is true after a length guard; index lists gather in key order; every raise of "
              "the indexing code is reachable and every FEASIBLE path (flag-sensitive) through one iteration of the multi-name "
-             "loop appends or raises; row selections map the same key over all columns; by-name lookup is exact-name-first.",
+             "loop appends or raises; row selections map the same key over all columns; by-name lookup is exact-name-first; the "
+             "comparison forms of the single-name and the multi-name branch (column / position / name abstracted) are the same set; "
+             "table masks are length-checked by a raise in their own branch; Table comparisons pair column-wise only with a 2-D "
+             "operand and keep a None entry's row False.",
         note="Slice arithmetic (typeutils.slice_length) is numeric and not decided; value equality with list slicing is "
              "delegated to tuple.__getitem__.",
         technique="construction-site matchers + CFG reachability + flag-sensitive must-pass-through + R-FALSY lint + term-domain abstract interpretation of the multi-name selection (search-idiom terms)",
@@ -154,7 +157,10 @@ CLAIMS = {
              "name store. Key dispatch covers the six key forms and ends in SerifTypeError, every index is normalised and "
              "range-checked before it is recorded; name/orientation are never stored; the accept/widen/reject table is "
              "evaluated exactly per (dtype, running target, value type) by abstract interpretation of the validation loop "
-             "(shared with C03); Table.__setitem__ resolves columns first and only delegates to column writes.",
+             "(shared with C03); Table.__setitem__ resolves columns first and only delegates to column writes; with several target "
+             "columns the whole assignment is REHEARSED on Table(<copies of the target columns>) with the same row spec and value "
+             "before the first store (all-or-nothing), Vector keys / values are snapshotted first, an untyped empty vector key "
+             "reaches no raise (the final raise's path condition is evaluated for that key), Row.__setitem__ only raises.",
         note="Equality with list assignment as values (range/slice arithmetic, typeutils.slice_length) is numeric and not decided.",
         technique="CFG reachability between mutation events and may-raise events + effect summaries + finite abstract interpretation",
         design="2/C08"),
@@ -216,7 +222,9 @@ CLAIMS = {
              "store a name; table-scalar copies source names by position; _resolve_binary_name's decision table is evaluated "
              "exactly over {None, '', 'n', 'm'}^2 (16 cells) and wired to the result column; Table.__init__ saves names before "
              "copying and restores them by position; >> names a FRESH copy with the dict key; join results take source names "
-             "with matching buffer index; aggregate/window keys and outputs pass through uniquify (shape-checked, sibling-equal).",
+             "with matching buffer index; aggregate/window keys and outputs pass through uniquify (shape-checked, sibling-equal; the key "
+             "name is evaluated for the stored names None / '' / word); a table's OWN name survives every row selection and "
+             "sort_by; table << rows, rows << table and vector (op) table name each fresh column after the column at its position.",
         note="The concrete suffix numbers chosen by uniquify are not decided.",
         technique="construction-site name provenance + finite abstract evaluation of the naming decision function + term-domain abstract interpretation of join / aggregate / window / construction naming + sibling comparison",
         design="2/C18"),
